@@ -5265,6 +5265,11 @@ let m_compile cfg text =
     | PCrash (x, _) -> Crash x
     | PFuel -> OutOfFuel)
 
+(** val m_env_find : envcfg -> str -> json -> node list result **)
+
+let m_env_find cfg text v =
+  bind (m_compile cfg text) (fun q -> m_find cfg q v)
+
 type gexp =
 | GEps
 | GRange of n * n
@@ -6592,6 +6597,32 @@ let op_linecol = function
      (line_of q (Z.to_nat o)) :: ((col_of q (Z.to_nat o)) :: [])
    | None -> bad_request)
 
+(** val op_env_find : z list -> z list **)
+
+let op_env_find r0 =
+  match dec_nat r0 with
+  | Some p ->
+    let (depth, r1) = p in
+    (match dec_registry r1 with
+     | Some p0 ->
+       let (rg, r2) = p0 in
+       (match dec_list dec_rxrow r2 with
+        | Some p1 ->
+          let (t, r3) = p1 in
+          (match dec_str r3 with
+           | Some p2 ->
+             let (q, r4) = p2 in
+             (match dec_json r4 with
+              | Some p3 ->
+                let (v, _) = p3 in
+                enc_result (enc_list enc_node)
+                  (m_env_find (mk_cfg depth rg t) q v)
+              | None -> bad_request)
+           | None -> bad_request)
+        | None -> bad_request)
+     | None -> bad_request)
+  | None -> bad_request
+
 (** val dispatch : z list -> z list **)
 
 let dispatch = function
@@ -6769,7 +6800,7 @@ let dispatch = function
                     (match l with
                      | [] -> bad_request
                      | i :: _ -> enc_sel0 (m_index_select (iota_json len) i))))
-            | XH -> bad_request)
+            | XH -> op_env_find r0)
          | XH -> op_compile r0)
       | XH -> op_tokenize r0)
    | _ -> bad_request)
